@@ -1,4 +1,5 @@
 import NeoFS.Model.SigChain
+import NeoFS.Gen.Wiring
 /-!
 # C31 — replication requests are accepted only from container nodes for container nodes
 
@@ -349,5 +350,15 @@ example : replicate exEnv { exRep 1 with sigValid := false } = refuse .badSigMis
 iteration level, but the local-node check (current epoch only) already refuses -/
 example : replicate { exEnv with cur := some .policyErr } (exRep 4) = refuse .internalPolicy := by decide
 example : forEachNode { exEnv with cur := some .policyErr } true (fun k => k == 4) = .done true := by decide
+
+/-- **Production wiring** (regenerated from `cmd/neofs-node/object.go` on every run, `Gen/Wiring.lean`): the `FSChain`
+the node hands to `Server.Replicate` answers the "local node" question from the CURRENT epoch only
+(`netCheck`'s `forEachNode env false`), the "sender" question from the last two epochs (`forEachNode env true`), and the
+storage step is `put.Service.ValidateAndStoreObjectLocally`. The adapters are plain delegations, so the theorems above,
+stated for `placement.Service`'s two iterators, are statements about the running node. -/
+theorem wiring_matches_model :
+    Gen.Wiring.fsChain_forEachNode = "placement.ForEachContainerNodePublicKey" ∧
+    Gen.Wiring.fsChain_forEachNodeTwoEpochs = "placement.ForEachContainerNodePublicKeyInLastTwoEpochs" ∧
+    Gen.Wiring.storage_verifyAndStore = "putSvc.ValidateAndStoreObjectLocally" := by decide
 
 end NeoFS.SigChain
